@@ -24,7 +24,9 @@ Property clause → theorem
 * "regardless of … goroutine scheduling": `C16.table_goStatements`, `C16.table_selectStmts`, `C16.table_chanOps`
 * "regardless of … wall-clock time": `C16.table_wallClockUses` (⊆ reviewed test-fixture allow-list),
   `C16.table_taintedCallers` (nothing else reaches those functions)
-* "regardless of process": `C16.table_randUses`, `C16.table_envUses`, `C16.table_unsafeUses`
+* "regardless of process": `C16.table_randUses`, `C16.table_envUses`, `C16.table_unsafeUses`,
+  `C16.no_mutable_package_state` + `C16.table_mutablePackageState_size` (no memo / counter / cache in a package-level
+  variable: nothing survives an application instance except the stores)
 * the extractor saw the tree: `C16.table_scan_coverage`, `C16.table_spot_entries`
 
 Partial: the Go scheduler and runtime, the SDK / CometBFT / IAVL / wasm code and float arithmetic are outside the
@@ -252,6 +254,38 @@ def allowedMapCallees : List String := [
 
 theorem table_mapArgsExternal :
     ∀ u ∈ Determinism.mapArgsExternalSummary, u.1 = "app" ∧ u.2 ∈ allowedMapCallees := by decide +kernel
+
+/-- Package-level variables written from non-init code. Reviewed allow-list — one kind of entry only:
+`msgservice.RegisterMsgServiceDesc(registry, &_Msg_serviceDesc)` in each module's `RegisterInterfaces`: the address of
+the protobuf-generated gRPC service descriptor is handed to the SDK at application wiring; the SDK reads it (method
+names → request types) and never writes it; not reachable from a message handler or a begin/end blocker. -/
+def allowedPackageStateWrites : List (String × String × String) := [
+  ("x/asset/types/codec.go", "RegisterInterfaces", "x/asset/types._Msg_serviceDesc:addr"),
+  ("x/auction/types/codec.go", "RegisterInterfaces", "x/auction/types._Msg_serviceDesc:addr"),
+  ("x/auctionsV2/types/codec.go", "RegisterInterfaces", "x/auctionsV2/types._Msg_serviceDesc:addr"),
+  ("x/collector/types/codec.go", "RegisterInterfaces", "x/collector/types._Msg_serviceDesc:addr"),
+  ("x/esm/types/codec.go", "RegisterInterfaces", "x/esm/types._Msg_serviceDesc:addr"),
+  ("x/lend/types/codec.go", "RegisterInterfaces", "x/lend/types._Msg_serviceDesc:addr"),
+  ("x/liquidation/types/codec.go", "RegisterInterfaces", "x/liquidation/types._Msg_serviceDesc:addr"),
+  ("x/liquidationsV2/types/codec.go", "RegisterInterfaces", "x/liquidationsV2/types._Msg_serviceDesc:addr"),
+  ("x/liquidity/types/codec.go", "RegisterInterfaces", "x/liquidity/types._Msg_serviceDesc:addr"),
+  ("x/locker/types/codec.go", "RegisterInterfaces", "x/locker/types._Msg_serviceDesc:addr"),
+  ("x/rewards/types/codec.go", "RegisterInterfaces", "x/rewards/types._Msg_serviceDesc:addr"),
+  ("x/tokenmint/types/codec.go", "RegisterInterfaces", "x/tokenmint/types._Msg_serviceDesc:addr"),
+  ("x/vault/types/codec.go", "RegisterInterfaces", "x/vault/types._Msg_serviceDesc:addr")]
+
+/-- "regardless of process / fresh in-process instances": no state outside the stores. The table of writes to
+package-level variables (assignment, op=, increment, decrement, field / element write, delete, address-of, pointer-receiver method of a
+comdex or sync type) from non-init functions of consensus packages, minus the reviewed allow-list, is empty. Such a
+variable (a memo, a counter, a cache) outlives an application instance and makes a replay depend on what the process
+computed before. -/
+theorem no_mutable_package_state :
+    Determinism.mutablePackageState.filter (fun u => !(allowedPackageStateWrites.contains u.key)) = [] := by
+  decide +kernel
+
+/-- pinned: 13 writes (one per module's `RegisterInterfaces`), out of 787 package-level variables seen -/
+theorem table_mutablePackageState_size :
+    Determinism.mutablePackageState.length = 13 ∧ Determinism.packageVars ≥ 700 := by decide +kernel
 
 /-- the extractor really walked the tree (an extractor that silently returns nothing fails here) -/
 theorem table_scan_coverage :
